@@ -212,6 +212,14 @@ def truth(a):
     """normalise a value used as a condition"""
     if single_atom(a, "cmp") is not None:
         return a
+    it = single_atom(a, "ite")
+    if it is not None and is_const(it.a[1]) and is_const(it.a[2]):
+        # (c ? 1 : 0) used as a condition is c
+        t1, t0 = bool(it.a[1].a[0]), bool(it.a[2].a[0])
+        if t1 and not t0:
+            return it.a[0]
+        if t0 and not t1:
+            return lnot(it.a[0])
     return cmp("!=", a, const(0))
 
 
@@ -220,6 +228,31 @@ def ite(c, a, b):
         return a
     if is_const(c):
         return a if c.a[0] else b
+    # one polarity per test: (x != y ? a : b) is (x == y ? b : a), (x <= y ? a : b) is (y < x ? b : a)
+    ia, ib = single_atom(a, "ite"), single_atom(b, "ite")
+    if ia is not None and ia.a[0] is c:
+        return ite(c, ia.a[1], b)          # c ? (c ? x : y) : z  =  c ? x : z
+    if ib is not None and ib.a[0] is c:
+        return ite(c, a, ib.a[2])
+    ca = single_atom(c, "cmp")
+    if ca is not None and ca.a[0] == "!=":
+        return ite(cmp("==", ca.a[1], ca.a[2]), b, a)
+    if ca is not None and ca.a[0] == "<=":
+        return ite(cmp("<", ca.a[2], ca.a[1]), b, a)
+    # (N == 0 ? init : loop-result) where the loop runs while t < N from t = 0: with N == 0 the loop body never runs and its
+    # result IS the initial value - the early return for an empty input is redundant
+    if ca is not None and ca.a[0] == "==":
+        lo = single_atom(b, "loopout")
+        if lo is not None:
+            L, r = lo.a[0], lo.a[1]
+            lc = single_atom(L.a[2], "cmp")
+            if lc is not None and lc.a[0] == "<" and a is L.a[1][r]:
+                tl = single_atom(lc.a[1], "lv")
+                if tl is not None and tl.a[0] == L.a[0] and is_const(L.a[1][tl.a[1]]) and L.a[1][tl.a[1]].a[0] == 0:
+                    n_ = lc.a[2]
+                    z_ = const(0)
+                    if (ca.a[1] is n_ and ca.a[2] is z_) or (ca.a[2] is n_ and ca.a[1] is z_):
+                        return b
     return atom(mk("ite", c, a, b))
 
 
@@ -323,6 +356,7 @@ class Evaluator:
     def __init__(self, fn):
         self.fn = fn
         self.depth = 0
+        self.inline_depth = 0
         self.loads = []     # (node, width) for the alignment rule
         self.globals_read = set()
 
@@ -427,6 +461,28 @@ class Evaluator:
         if k == "cond":
             c = truth(self.ev(n["ch"][0], env))
             return ite(c, self.ev(n["ch"][1], env), self.ev(n["ch"][2], env))
+        if k == "call":
+            # a value-returning helper of the same file whose arguments are plain values (one mixing round pulled out into a
+            # function): evaluated in place.  Helpers that work through pointers to the caller's variables stay unsupported.
+            g = self.fn.unit.functions.get(X.callee_name(n) or "") if getattr(self.fn, "unit", None) is not None else None
+            if g is not None and g.body is not None and self.inline_depth < 3 and len(g.params) == len(n["ch"]) - 1 and \
+                    not any(X.strip(a).get("k") == "un" and X.strip(a).get("op") == "&" for a in n["ch"][1:]):
+                vals = [self.ev(a, env) for a in n["ch"][1:]]
+                env2 = {}
+                for p_, v_ in zip(g.params, vals):
+                    env2[p_["d"]] = self.fit(v_, p_) if not p_.get("tp") else v_
+                saved_fn, saved_depth = self.fn, self.depth
+                self.fn = g
+                self.depth = 0
+                self.inline_depth += 1
+                try:
+                    self.run(g.body, env2)
+                finally:
+                    self.fn, self.depth = saved_fn, saved_depth
+                    self.inline_depth -= 1
+                if "$ret" not in env2:
+                    raise Unsupported("helper %s returns no value" % g.name)
+                return env2["$ret"]
         raise Unsupported("expression kind %s (%s)" % (k, X.render(n)[:40]))
 
     def signed_fix(self, v, n):
@@ -441,6 +497,8 @@ class Evaluator:
         if w is not None and w < 32:
             if is_const(v) and not lhs.get("ts"):
                 return const(v.a[0] & ((1 << w) - 1))
+            if not lhs.get("ts") and w >= 8 and single_atom(v, "load8") is not None:
+                return v            # a byte stored into an unsigned type of at least 8 bits is unchanged
             return atom(mk("trunc", w, 1 if lhs.get("ts") else 0, v))
         return v
 
@@ -577,28 +635,110 @@ class Evaluator:
         inits = [env[d] for d in mods]
         steps = [be[d] for d in mods]
         self.depth -= 1
-        # canonical order of loop-carried variables by colour refinement
         n = len(mods)
-        colours = ["init" + inits[i].dig for i in range(n)]
-        for _ in range(3):
-            def sub(a, colours=colours):
-                if a.k == "lv" and a.a[0] == depth:
-                    return sym("colour:" + colours[a.a[1]])
+
+        def lvatom(i):
+            return mk("lv", depth, i)
+        # ---- induction variables: x' = x + c.  They are rewritten as  init + c*t  over one canonical trip counter t (t = 0, t' = t + 1),
+        # so an index, a walking pointer and a count-down of the remaining length are three spellings of the same loop
+        ivs = {}
+        for i in range(n):
+            dlt = add(steps[i], atom(lvatom(i)), -1)
+            if is_const(dlt) and dlt.a[0] % M != 0:
+                ivs[i] = dlt.a[0] % M
+        T = n
+        if ivs:
+            def subst(a):
+                if a.k == "lv" and a.a[0] == depth and a.a[1] in ivs:
+                    return add(inits[a.a[1]], scale(atom(lvatom(T)), ivs[a.a[1]]))
                 return None
             memo = {}
-            colours = [hashlib.sha1((colours[i] + rebuild(steps[i], sub, memo).dig).encode()).hexdigest() for i in range(n)]
-        order = sorted(range(n), key=lambda i: (colours[i], i))
-        rank = {old: new for new, old in enumerate(order)}
+            cond = rebuild(cond, subst, memo)
+            steps = [rebuild(steps[i], subst, memo) for i in range(n)]
+            # the continuation test of a counter that starts at 0 and steps by 1:  N - t != 0,  t != N  and  t < N  are one test
+            ca = single_atom(cond, "cmp")
+            if ca is not None and ca.a[0] == "<":
+                # p + t < p + N (a walking pointer against an end pointer): the common base cancels (addresses do not wrap)
+                da, db = dict(ca.a[1].a[1]), dict(ca.a[2].a[1])
+                common = [x for x in da if x in db and da[x] == db[x] and not (x.k == "lv" and x.a[0] == depth)]
+                if common:
+                    la_ = lin(ca.a[1].a[0], tuple((x, c_) for x, c_ in da.items() if x not in common))
+                    lb_ = lin(ca.a[2].a[0], tuple((x, c_) for x, c_ in db.items() if x not in common))
+                    cond = cmp("<", la_, lb_)
+                    ca = single_atom(cond, "cmp")
+            if ca is not None and ca.a[0] == "!=":
+                diff = add(ca.a[1], ca.a[2], -1)
+                coef = dict((a_.id, c_) for a_, c_ in diff.a[1]).get(lvatom(T).id)
+                if coef in (1, M - 1):
+                    rest = add(diff, scale(atom(lvatom(T)), coef), -1)          # diff without the t term
+                    bound = scale(rest, M - 1) if coef == 1 else rest           # t - N != 0  ->  N = -rest ;  N - t != 0 -> N = rest
+                    if not any(a_.k == "lv" and a_.a[0] == depth for a_, _ in bound.a[1]):
+                        cond = cmp("<", atom(lvatom(T)), bound)
+        ids = [i for i in range(n) if i not in ivs] + ([T] if ivs else [])
+        init_of = {i: inits[i] for i in range(n)}
+        step_of = {i: steps[i] for i in range(n)}
+        init_of[T] = const(0)
+        step_of[T] = add(atom(lvatom(T)), const(1))
 
-        def ren(a):
-            if a.k == "lv" and a.a[0] == depth:
-                return atom(mk("lv", depth, rank[a.a[1]]))
-            return None
-        memo = {}
-        L = mk("loop", depth, tuple(inits[i] for i in order), rebuild(cond, ren, memo),
-               tuple(rebuild(steps[i], ren, memo) for i in order))
+        def deps(t_, acc=None):
+            acc = set() if acc is None else acc
+
+            def f(a):
+                if a.k == "lv" and a.a[0] == depth:
+                    acc.add(a.a[1])
+                return None
+            rebuild(t_, f, {})
+            return acc
+        dep = {i: deps(step_of[i]) for i in ids}
+        cdep = deps(cond)
+
+        def build(slice_ids):
+            """the loop restricted to the variables in slice_ids, in canonical order: returns (L, rank of each id)"""
+            sl = sorted(slice_ids)
+            colours = {i: "init" + init_of[i].dig for i in sl}
+            for _ in range(3):
+                def sub(a, colours=colours):
+                    if a.k == "lv" and a.a[0] == depth:
+                        return sym("colour:" + colours.get(a.a[1], "?"))
+                    return None
+                memo = {}
+                colours = {i: hashlib.sha1((colours[i] + rebuild(step_of[i], sub, memo).dig).encode()).hexdigest() for i in sl}
+            order = sorted(sl, key=lambda i: (colours[i], i))
+            rank = {old: new for new, old in enumerate(order)}
+
+            def ren(a):
+                if a.k == "lv" and a.a[0] == depth:
+                    return atom(mk("lv", depth, rank[a.a[1]])) if a.a[1] in rank else None
+                return None
+            memo = {}
+            L = mk("loop", depth, tuple(init_of[i] for i in order), rebuild(cond, ren, memo),
+                   tuple(rebuild(step_of[i], ren, memo) for i in order))
+            return L, rank
+
+        def closure(seed):
+            out = set(seed)
+            work = list(seed)
+            while work:
+                x = work.pop()
+                for y in dep.get(x, ()):
+                    if y not in out:
+                        out.add(y)
+                        work.append(y)
+            return out
+        cache = {}
+
+        def out_of(i):
+            """value of variable i after the loop: only the variables it (and the condition) depends on are part of its loop"""
+            sl = frozenset(closure({i} | cdep))
+            if sl not in cache:
+                cache[sl] = build(sl)
+            L, rank = cache[sl]
+            return atom(mk("loopout", L, rank[i]))
         for i, d in enumerate(mods):
-            env[d] = atom(mk("loopout", L, rank[i]))
+            if i in ivs:
+                env[d] = add(inits[i], scale(out_of(T), ivs[i]))
+            else:
+                env[d] = out_of(i)
 
     def switch(self, stmt, env):
         scrut = self.ev(stmt["cond"], env)
